@@ -37,6 +37,9 @@ pub enum Op {
     NewNs { prefix: String, uri: String },
     NewDocWithElement { n: Lid },
     Parse { text: String, kind: ParseKind },
+    /// `fixed::Element::xotify` / `fixed::Document::xotify` of a generated structure that may list an
+    /// attribute name or a prefix twice and text in adjacent pieces
+    Xotify { e: crate::absdoc::AElem, document: bool, split: bool },
     // structure
     Append { p: Lid, c: Lid },
     Prepend { p: Lid, c: Lid },
@@ -113,6 +116,8 @@ impl Op {
             NewAttr { .. } => "new_attribute_node",
             NewNs { .. } => "new_namespace_node",
             NewDocWithElement { .. } => "new_document_with_element",
+            Xotify { document: true, .. } => "fixed::Document::xotify",
+            Xotify { .. } => "fixed::Element::xotify",
             Parse { kind, .. } => match kind {
                 ParseKind::Doc => "parse",
                 ParseKind::Fragment => "parse_fragment",
@@ -250,6 +255,7 @@ impl Op {
         matches!(
             self,
             Parse { .. }
+                | Xotify { .. }
                 | CloneWithPrefixes { .. }
                 | RemoveInsignificantWhitespace { .. }
                 | CreateMissingPrefixes { .. }
@@ -269,6 +275,7 @@ impl Op {
                 | NewAttr { .. }
                 | NewNs { .. }
                 | Parse { .. }
+                | Xotify { .. }
                 | SetConsolidation { .. }
         )
     }
@@ -296,7 +303,7 @@ impl Op {
                     other => other,
                 }
             }
-            Parse { .. } => Pred::Unknown,
+            Parse { .. } | Xotify { .. } => Pred::Unknown,
             Append { p, c } => m.append(*p, *c),
             Prepend { p, c } => m.prepend(*p, *c),
             InsertAfter { r, c } => m.insert_after(*r, *c),
@@ -610,6 +617,16 @@ impl Op {
                 Ok(Some(x.new_namespace_node(p, u)))
             }
             NewDocWithElement { n } => e2s(x.new_document_with_element(h(*n))).map(Some),
+            Xotify { e, document, split } => {
+                let sp = *split;
+                let mut coin = move || sp;
+                if *document {
+                    let d = crate::absdoc::ADoc { before: vec![], root: e.clone(), after: vec![] };
+                    Ok(Some(crate::absdoc::fx_doc(&d, &mut coin).xotify(x)))
+                } else {
+                    Ok(Some(crate::absdoc::fx_elem(e, &mut coin).xotify(x)))
+                }
+            }
             Parse { text, kind } => match kind {
                 ParseKind::Doc => x.parse(text).map(Some).map_err(|e| format!("{:?}", e)),
                 ParseKind::Fragment => x.parse_fragment(text).map(Some).map_err(|e| format!("{:?}", e)),
